@@ -502,6 +502,7 @@ class Diff(Oracle):
             di = schema_has(m, lambda n: (n.kind == "list" and not n.keys) or (n.kind == "leaf-list" and not n.config))
             nop = lambda: s.dump(31)                       # placeholder keeping the result indices fixed
             s.add("diff", "t0", "t1", DIFF_DEFAULTS, "t2") # 27
+            s.dump(2)                                      # (taken out of the result list by judge(): the indices below stay)
             # reverse (defaults diff)
             if "reverse" in self.parts:
                 s.add("rev", "t2", "t7")
@@ -561,8 +562,32 @@ class Diff(Oracle):
             # inside can be the first node of the diff when it is relinked
             tm = any(sc.kind == "list" and (sc.userord or not sc.config) and sc.keys and len(sc.children) > len(sc.keys)
                      for sc in m.nodes)
-            self.info[L[-1]] = (uo, di, ue, bq, dupinst_names(m) if di else set(), sl, ud, tm)
+            un = {sc.name for sc in m.all_nodes() if sc.kind in ("list", "leaf-list") and (sc.userord or not sc.config)}
+            self.info[L[-1]] = (uo, di, ue, bq, dupinst_names(m) if di else set(), sl, ud, tm, un)
         return L
+
+    @staticmethod
+    def uord_ops(ddump, un):
+        """(a user-ordered instance is deleted - itself or with an ancestor -, the largest number of moves in one list) of a
+        diff dump: the two shapes of the known finding uord-reverse"""
+        stack, moves, deleted = [], {}, False
+        for i, seg in enumerate(x for x in ddump.split(";") if x and x != "empty"):
+            p = seg.split(":")
+            d = int(p[0])
+            op = None
+            for x in p[5:]:
+                if x.startswith("operation="):
+                    op = bytes.fromhex(x.split("=", 1)[1]).decode()
+            del stack[d:]
+            eff = op or (stack[-1][1] if stack else None)
+            stack.append((i, eff))
+            if p[2] in un:
+                if eff == "delete":
+                    deleted = True
+                if op == "replace":
+                    k = (stack[-2][0] if d else -1, p[2])
+                    moves[k] = moves.get(k, 0) + 1
+        return deleted, max(moves.values()) if moves else 0
 
     def judge(self, line, out):
         if crashed(out):
@@ -570,13 +595,14 @@ class Diff(Oracle):
         r = results(out)
         if r[1] != "0" or rc(r[2]) != 0 or rc(r[3]) != 0 or rc(r[4]) != 0:
             return None
-        uo, di, ue, bq, dn, sl, ud, tm = self.info.get(line, (False, False, set(), False, set(), False, set(), False))
+        uo, di, ue, bq, dn, sl, ud, tm, un = self.info.get(line, (False, False, set(), False, set(), False, set(), False, set()))
+        ddump = r.pop(28) if len(r) > 28 else ""
         a0, b0 = r[5], r[6]
         fwd = self._judge_forward(r, a0, b0, uo, di, ue, bq, dn, sl, ud, tm)
         if fwd:
             # a failure of the forward laws is a C06 matter: the reverse-only oracles (C13) cannot judge such a case
             return fwd if "forward" in self.parts else None
-        return self._judge_reverse(r, uo, di, ue, sl)
+        return self._judge_reverse(r, uo, di, ue, sl, self.uord_ops(ddump, un))
 
     def _judge_forward(self, r, a0, b0, uo, di, ue=(), bq=False, dn=(), sl=False, ud=(), tm=False):
         k = 7
@@ -645,7 +671,7 @@ class Diff(Oracle):
                 return (None, "printed/parsed diff applied after freeing A,B does not give B: rt=%s apply=%s cmp=%s" % (r[45], r[50], r[51]))
         return None
 
-    def _judge_reverse(self, r, uo, di, ue=(), sl=False):
+    def _judge_reverse(self, r, uo, di, ue=(), sl=False, uops=(True, 2)):
         if "reverse" not in self.parts:
             return None
         # reverse
@@ -659,7 +685,8 @@ class Diff(Oracle):
                 t = "uord-empty-anchor-reverse"
             return (t, "lyd_diff_reverse_all failed: " + r[28])
         if not r[30].startswith("0") or "!" in r[30] or r[31] != "0":
-            tag = "uord-reverse" if uo else ("dupinst-reverse" if di else None)
+            # uord-reverse: only the shapes of its witnesses - a deleted user-ordered instance or two moves in one list
+            tag = "uord-reverse" if (uo and (uops[0] or uops[1] >= 2)) else ("dupinst-reverse" if di else None)
             return (tag, "apply(reverse(diff(A,B)),B) != A: apply=%s cmp=%s" % (r[30], r[31]))
         # merge (claimed for non user-ordered data only)
         if not (uo or di):
